@@ -50,6 +50,7 @@ def api_level(chk):
     # concurrent: lock-ordered hook events
     trc = os.path.join(core.scratch(), "lruconc-trace.ndjson")
     s = core.run_harness(["lruconc", "record", trc, 30 if thorough else 6], env={"VERIF_SEED": chk.seed})
+    chk.absorb(s, "lruconc")
     ok, bad, r = core.validate_trace("TraceCache", trc, constants=tconst, invariants=["TraceRefines", "TraceBounded"])
     chk.add_tlc(r, "trace validation, %d concurrent histories in lock order" % s["cases"])
     chk.traces += s["cases"]
